@@ -4,8 +4,9 @@ child counters) against the tree state of `Spec.Css`, for Thm/C04_VM.lean (`C04_
 -/
 import LolHtml.Lemmas.SelVM
 
+set_option linter.unusedSimpArgs false
 namespace LolHtml.SelVM
-open LolHtml LolHtml.Sel
+open LolHtml LolHtml.Sel LolHtml.Spec.Css
 
 /-! ## `open_name_counts` -/
 
@@ -480,4 +481,233 @@ theorem TypedInv.get_current {m : TypedChildCounterMap} {sibs : List Bytes} {res
     obtain ⟨k', cl⟩ := e
     simp only at hg ⊢
     simp [hg.1]
+/-! ## the stack against the specification's tree state -/
+
+/-- sibling-name lists per level, innermost level first, root level last -/
+def levelsOf (ts : TreeState) : List (List Bytes) := ts.open.map (·.children) ++ [ts.rootChildren]
+
+/-- The stack of the VM mirrors the open elements of the specification's tree state. -/
+structure StackInv (s : Stack) (ts : TreeState) : Prop where
+  names : s.items.reverse.map (·.localName) = ts.open.map (·.elem.tag.name)
+  cum : s.items.reverse.map (·.childCounter) = ts.open.map (·.children.length)
+  root : s.rootChildCounter = ts.rootChildren.length
+  countsOk : CountsOk s.openNameCounts
+  counts : ∀ k, cget s.openNameCounts k = nameKeyCount s.items k
+  typed : ∀ m, s.typedChildCounters = some m → TypedInv m (levelsOf ts)
+
+theorem StackInv.length_eq {s ts} (inv : StackInv s ts) : s.items.length = ts.open.length := by
+  have := congrArg List.length inv.names
+  simpa using this
+
+theorem incLastChildCounter_concat (l : List StackItem) (x : StackItem) :
+    incLastChildCounter (l ++ [x]) = l ++ [{ x with childCounter := x.childCounter + 1 }] := by
+  induction l with
+  | nil => rfl
+  | cons a l ih =>
+    cases l with
+    | nil => rfl
+    | cons b l => simp only [List.cons_append, incLastChildCounter] at ih ⊢; rw [ih]
+
+theorem incLastChildCounter_length (l : List StackItem) : (incLastChildCounter l).length = l.length := by
+  rcases List.eq_nil_or_concat l with h | ⟨l', x, h⟩
+  · subst h; rfl
+  · subst h; simp [List.concat_eq_append, incLastChildCounter_concat]
+
+theorem StackInv.init (nth : Bool) : StackInv (Stack.new nth) {} := by
+  refine ⟨rfl, rfl, rfl, ⟨by simp [Stack.new], by simp [Stack.new]⟩, fun k => by simp [Stack.new, cget, nameKeyCount], ?_⟩
+  intro m hm
+  cases nth <;> simp [Stack.new] at hm
+  subst hm
+  exact ⟨by simp, fun k => by simp [mget, levelsOf, expectedTop, keyCount]⟩
+
+/-- tree state after recording the child, before possibly opening it -/
+def TreeState.withChild (ts : TreeState) (name : Bytes) : TreeState :=
+  match ts.open with
+  | [] => { ts with rootChildren := ts.rootChildren ++ [name] }
+  | o :: rest => { ts with «open» := { o with children := o.children ++ [name] } :: rest }
+
+theorem startTag_eq (ts : TreeState) (t : StartTag) (esi : Bool) :
+    ts.startTag t esi =
+      if staysOpen t esi then
+        { TreeState.withChild ts t.name with «open» := ⟨ts.elemFor t, []⟩ :: (TreeState.withChild ts t.name).open }
+      else TreeState.withChild ts t.name := by
+  unfold TreeState.startTag TreeState.withChild
+  cases ts.open <;> rfl
+
+theorem StackInv.addChild {s ts} (inv : StackInv s ts) (name : Bytes) :
+    StackInv (s.addChild name) (TreeState.withChild ts name) := by
+  have hlen := inv.length_eq
+  obtain ⟨names, cum, root, cok, counts, typed⟩ := inv
+  unfold Stack.addChild TreeState.withChild
+  cases hopen : ts.open with
+  | nil =>
+    have hitems : s.items = [] := by
+      rw [hopen] at hlen; exact List.eq_nil_of_length_eq_zero hlen
+    simp only [hitems, List.isEmpty_nil, if_true]
+    refine ⟨by simp [hitems, hopen], by simp [hitems, hopen], by simp [root], cok,
+      by simpa [hitems] using counts, ?_⟩
+    intro m hm
+    cases htc : s.typedChildCounters with
+    | none => simp [htc] at hm
+    | some m0 =>
+      simp only [htc, Option.map_some, Option.some.injEq] at hm
+      subst hm
+      have h0 := typed m0 htc
+      simp only [levelsOf, hopen, List.map_nil, List.nil_append] at h0 ⊢
+      simpa using h0.addChild name
+  | cons o rest =>
+    rw [hopen] at names cum hlen
+    rcases List.eq_nil_or_concat s.items with hitems | ⟨l, x, hitems⟩
+    · rw [hitems] at hlen; simp at hlen
+    · rw [List.concat_eq_append] at hitems
+      have hne : s.items.isEmpty = false := by rw [hitems]; simp
+      simp only [hne, Bool.false_eq_true, if_false]
+      rw [hitems] at names cum
+      simp only [List.reverse_append, List.reverse_cons, List.reverse_nil, List.nil_append,
+        List.singleton_append, List.map_cons, List.cons.injEq] at names cum
+      refine ⟨?_, ?_, root, cok, ?_, ?_⟩
+      · simp [hitems, incLastChildCounter_concat, names.1, names.2]
+      · simp [hitems, incLastChildCounter_concat, cum.1, cum.2]
+      · intro k
+        rw [counts k, hitems, incLastChildCounter_concat]
+        simp [nameKeyCount, List.countP_append]
+      · intro m hm
+        cases htc : s.typedChildCounters with
+        | none => simp [htc] at hm
+        | some m0 =>
+          simp only [htc, Option.map_some, Option.some.injEq] at hm
+          subst hm
+          have h0 := typed m0 htc
+          simp only [levelsOf, hopen, List.map_cons, List.cons_append] at h0 ⊢
+          have hl : (incLastChildCounter s.items).length = (rest.map (·.children) ++ [ts.rootChildren]).length := by
+            rw [incLastChildCounter_length]; simp [hitems] at hlen ⊢; omega
+          rw [hl]
+          exact h0.addChild name
+
+theorem StackInv.pushItem {s ts} (inv : StackInv s ts) (item : StackItem) (e : Elem)
+    (hn : item.localName = e.tag.name) (hc : item.childCounter = 0) :
+    StackInv (s.pushItem item) { ts with «open» := ⟨e, []⟩ :: ts.open } := by
+  obtain ⟨names, cum, root, cok, counts, typed⟩ := inv
+  unfold Stack.pushItem
+  refine ⟨by simp [names, hn], by simp [cum, hc], root, countsIncr_ok _ cok, ?_, ?_⟩
+  · intro k
+    simp only [cget_countsIncr, counts k, nameKeyCount, List.countP_append, List.countP_cons,
+      List.countP_nil, beq_iff_eq]
+    by_cases h : asciiLowerBytes item.localName = k
+    · simp [h]
+    · have : ¬ k = asciiLowerBytes item.localName := fun x => h x.symm
+      simp [h, this]
+  · intro m hm
+    exact (typed m hm).push
+
+theorem closeUpTo_eq_drop (name : Bytes) : ∀ (l : List OpenElem) (i : Nat),
+    l.findIdx? (fun o => localNameEq o.elem.tag.name name) = some i → closeUpTo name l = l.drop (i + 1) := by
+  intro l
+  induction l with
+  | nil => intro i h; simp at h
+  | cons o rest ih =>
+    intro i h
+    simp only [List.findIdx?_cons] at h
+    unfold closeUpTo
+    by_cases hp : localNameEq o.elem.tag.name name = true
+    · simp only [hp, if_true] at h ⊢
+      simp at h; subst h; simp
+    · have hp' : localNameEq o.elem.tag.name name = false := by simpa using hp
+      simp only [hp', Bool.false_eq_true, if_false] at h ⊢
+      simp only [Option.map_eq_some_iff] at h
+      obtain ⟨j, hj, hij⟩ := h
+      subst hij
+      simpa using ih j hj
+
+theorem findIdx?_reverse_items {s ts} (inv : StackInv s ts) (name : Bytes) :
+    s.items.reverse.findIdx? (fun it => localNameEq it.localName name) =
+      ts.open.findIdx? (fun o => localNameEq o.elem.tag.name name) := by
+  have h1 : s.items.reverse.findIdx? (fun it => localNameEq it.localName name) =
+      (s.items.reverse.map (·.localName)).findIdx? (fun n => localNameEq n name) := by
+    rw [List.findIdx?_map]; rfl
+  have h2 : ts.open.findIdx? (fun o => localNameEq o.elem.tag.name name) =
+      (ts.open.map (·.elem.tag.name)).findIdx? (fun n => localNameEq n name) := by
+    rw [List.findIdx?_map]; rfl
+  rw [h1, h2, inv.names]
+
+theorem localNameEq_iff (a b : Bytes) : localNameEq a b = true ↔ asciiLowerBytes a = asciiLowerBytes b := by
+  simp [localNameEq, eqIgnoreAsciiCase]
+
+theorem nameKeyCount_pos_iff (items : List StackItem) (name : Bytes) :
+    1 ≤ nameKeyCount items (asciiLowerBytes name) ↔
+      (items.reverse.findIdx? (fun it => localNameEq it.localName name)).isSome = true := by
+  rw [List.findIdx?_isSome]
+  simp only [nameKeyCount, Nat.succ_le_iff, List.countP_pos_iff, beq_iff_eq, List.any_eq_true,
+    List.mem_reverse, localNameEq_iff]
+
+theorem nameKeyCount_append (a b : List StackItem) (k : Bytes) :
+    nameKeyCount (a ++ b) k = nameKeyCount a k + nameKeyCount b k := by
+  simp [nameKeyCount, List.countP_append]
+
+/-- `pop_up_to` never panics on a stack that satisfies the invariant, and closes exactly the
+    elements the specification closes for that end tag. -/
+theorem StackInv.popUpTo {s ts} (inv : StackInv s ts) (name : Bytes) :
+    ∃ s' d, s.popUpTo name = .ok (s', d) ∧ StackInv s' (ts.endTag name) := by
+  have hlen := inv.length_eq
+  have hfind := findIdx?_reverse_items inv name
+  obtain ⟨names, cum, root, cok, counts, typed⟩ := inv
+  unfold Stack.popUpTo TreeState.endTag
+  have hany : (s.openNameCounts.any fun e => e.1 == asciiLowerBytes name) = true ↔
+      (ts.open.findIdx? (fun o => localNameEq o.elem.tag.name name)).isSome = true := by
+    rw [any_key_iff cok, counts, nameKeyCount_pos_iff, hfind]
+  cases hf : ts.open.findIdx? (fun o => localNameEq o.elem.tag.name name) with
+  | none =>
+    have h1 : (s.openNameCounts.any fun e => e.1 == asciiLowerBytes name) = false := by
+      cases h : (s.openNameCounts.any fun e => e.1 == asciiLowerBytes name) with
+      | false => rfl
+      | true => rw [hf] at hany; simp [h] at hany
+    have h2 : (ts.open.any fun o => localNameEq o.elem.tag.name name) = false := by
+      have := List.findIdx?_isSome (xs := ts.open) (p := fun o => localNameEq o.elem.tag.name name)
+      rw [hf] at this; simpa using this.symm
+    simp only [h1, h2, Bool.not_false, if_true, Bool.false_eq_true, if_false, pure, Except.pure]
+    exact ⟨s, [], rfl, ⟨names, cum, root, cok, counts, typed⟩⟩
+  | some i =>
+    have h1 : (s.openNameCounts.any fun e => e.1 == asciiLowerBytes name) = true := by
+      rw [hany, hf]; rfl
+    have h2 : (ts.open.any fun o => localNameEq o.elem.tag.name name) = true := by
+      have := List.findIdx?_isSome (xs := ts.open) (p := fun o => localNameEq o.elem.tag.name name)
+      rw [hf] at this; simpa using this.symm
+    have hi : i < ts.open.length := by
+      have := List.findIdx?_eq_some_iff_findIdx_eq.mp hf
+      exact this.1
+    rw [hf] at hfind
+    simp only [h1, h2, Bool.not_true, Bool.false_eq_true, if_false, if_true, rposition, hfind,
+      closeUpTo_eq_drop name ts.open i hf]
+    -- split the items
+    have hsplit : s.items = s.items.take (s.items.length - 1 - i) ++ s.items.drop (s.items.length - 1 - i) :=
+      (List.take_append_drop _ _).symm
+    obtain ⟨cs', hfold, cok', hget⟩ := foldlM_countsDecr (s.items.drop (s.items.length - 1 - i)) s.openNameCounts
+      (nameKeyCount (s.items.take (s.items.length - 1 - i))) cok (by
+        intro k
+        rw [counts k, ← nameKeyCount_append, ← hsplit])
+    simp only [hfold, bind, Except.bind, pure, Except.pure]
+    refine ⟨_, _, rfl, ?_⟩
+    have hrev : (s.items.take (s.items.length - 1 - i)).reverse = s.items.reverse.drop (i + 1) := by
+      rw [List.reverse_take]
+      congr 1
+      omega
+    refine ⟨?_, ?_, root, cok', hget, ?_⟩
+    · simp only [hrev, List.map_drop, names]
+    · simp only [hrev, List.map_drop, cum]
+    · intro m hm
+      cases htc : s.typedChildCounters with
+      | none => simp [htc] at hm
+      | some m0 =>
+        simp only [htc, Option.map_some, Option.some.injEq] at hm
+        subst hm
+        have h0 := (typed m0 htc).popTo (s.items.length - 1 - i) (by simp [levelsOf]; omega)
+        have hd : (levelsOf ts).length - (s.items.length - 1 - i + 1) = i + 1 := by
+          simp [levelsOf]; omega
+        rw [hd] at h0
+        have : (levelsOf ts).drop (i + 1) =
+            levelsOf { ts with «open» := ts.open.drop (i + 1) } := by
+          simp only [levelsOf, List.map_drop]
+          rw [List.drop_append_of_le_length (by simp; omega)]
+        rw [this] at h0
+        exact h0
 end LolHtml.SelVM
